@@ -19,8 +19,28 @@ Theorem C18_observed_state_is_prefix_fold :
     exists v' ems a', sem K toks spn n g ctx (cur s) (alt s) = Some (Some (v', cur s', ems), a') /\ v = bindv m v'.
 Proof. exact machine_ok_is_peg. Qed.
 
+(* custom parsers written against InputRef's public API (next / next_ref / peek / skip / save / rewind / span_since / state):
+   whatever the program does, the machine's run is the positional reading - the state a program reads is the fold over the
+   tokens before the cursor at that moment (peek does not disturb it, rewind restores it), and when the program ends the
+   inspector again holds the fold over the tokens before the cursor; nothing else (errors, pending error, memo table) moves *)
+Theorem C18_custom_parser_api_keeps_the_inspector_consistent :
+  forall toks spn ops start stack sstack acc s b acc' s1,
+    prog_loop toks spn ops start stack acc s = (b, acc', s1) -> inv toks s ->
+    Forall2 (fun c p => c = (p, length (sec s), ust_at toks p)) stack sstack ->
+    prog_sem toks spn ops start sstack acc (cur s) = (b, acc', cur s1) /\
+    alt s1 = alt s /\ sec s1 = sec s /\ ust s1 = ust_at toks (cur s1) /\ memo s1 = memo s.
+Proof. exact prog_loop_refines. Qed.
+
 Theorem C18_initial_state_consistent : forall toks, inv toks init_st.
 Proof. exact inv_init. Qed.
+
+Example C18_custom_program_example :
+  let toks := [97; 98; 99]%N in
+  (* save; next; peek; read the state; rewind; read the state; next *)
+  let g := Prog [CSave; CNext; CPeek; CState; CRewind; CState; CNext] 4 in
+  fst (go no_quirks KRich toks (fun a b => (a, b)) 12 Emit g env0 init_st)
+    = Ok (Some (VList [VTok 97%N; VTok 98%N; VNum (ust_at toks 1); VNum (ust_at toks 0); VTok 97%N])).
+Proof. vm_compute. reflexivity. Qed.
 
 Example C18_example :
   let toks := [97; 98; 99]%N in
@@ -50,3 +70,4 @@ Print Assumptions C18_with_state_leaves_outer_state_untouched.
 Print Assumptions C18_with_state_starts_from_a_fresh_copy.
 Print Assumptions C18_observed_state_is_prefix_fold.
 Print Assumptions C18_initial_state_consistent.
+Print Assumptions C18_custom_parser_api_keeps_the_inspector_consistent.
